@@ -15,11 +15,19 @@ from .engine import Ctx, RaiseSig, PathEnd, conj
 
 
 class LoopSpec:
-    def __init__(self, ordinal, inv_nodes, modifies, elem):
+    def __init__(self, ordinal, inv_nodes, modifies, elem, step_nodes=None, lean=False):
         self.ordinal = ordinal
+        # lean: inside the loop body the quantified facts collected BEFORE the loop are dropped (the invariant has to
+        # carry what the body needs, as in any invariant-based verifier).  Dropping hypotheses is always sound; it
+        # keeps the queries of a late loop free of the quantified facts of everything that ran before it.
+        self.lean = lean
         self.inv_nodes = inv_nodes      # list of (label, expr ast)
         self.modifies = modifies
         self.elem = elem
+        # step clauses: proved at every exit of one iteration of the body (fall-through, continue, break) about
+        # that iteration alone; `iter<ordinal>.x` is the state at the start of the iteration, `_broke` says whether
+        # the iteration left the loop with break.  Never assumed anywhere (composition over iterations is on paper).
+        self.step_nodes = step_nodes or []
 
     def clauses(self):
         return self.inv_nodes
@@ -121,9 +129,17 @@ class Contract:
                     raise VCError(f"{path}: contract {key}: unknown attribute {n}")
 
     def parse_loop(self, ordinal, call):
-        inv_nodes, modifies, elem = [], None, None
+        inv_nodes, modifies, elem, step_nodes, lean = [], None, None, [], False
         for kw in call.keywords:
-            if kw.arg == "inv":
+            if kw.arg == "lean":
+                lean = ast.literal_eval(kw.value)
+            if kw.arg == "step":
+                lams = kw.value.elts if isinstance(kw.value, (ast.List, ast.Tuple)) else [kw.value]
+                for li, lam in enumerate(lams):
+                    body = lam.body if isinstance(lam, ast.Lambda) else lam
+                    for ci, c in enumerate(split_conj(body)):
+                        step_nodes.append((f"{li}.{ci}", c))
+            elif kw.arg == "inv":
                 lams = kw.value.elts if isinstance(kw.value, (ast.List, ast.Tuple)) else [kw.value]
                 for li, lam in enumerate(lams):
                     body = lam.body if isinstance(lam, ast.Lambda) else lam
@@ -133,7 +149,7 @@ class Contract:
                 modifies = ast.literal_eval(kw.value)
             elif kw.arg == "elem":
                 elem = ast.literal_eval(kw.value)
-        return LoopSpec(ordinal, inv_nodes, modifies, elem)
+        return LoopSpec(ordinal, inv_nodes, modifies, elem, step_nodes, lean)
 
     def requires_clauses(self):
         return self.requires
@@ -263,6 +279,8 @@ class World:
                                         sf.nonneg = ast.literal_eval(kw.value)
                                     if kw.arg == "ghost":
                                         sf.ghost = ast.literal_eval(kw.value)
+                                    if kw.arg == "opaque":
+                                        sf.opaque = ast.literal_eval(kw.value)
                         self.specs[sf.name] = sf
                     elif "lemma" in decs:
                         self.lemmas[st.name] = Lemma(st, path)
@@ -637,7 +655,7 @@ class World:
             cname, attr = sf.ghost.split(".", 1)
             return fv.load_field(V(("ref", cname), obj.t, aux=obj.aux), attr, ctx.heap)
         body = fn_return_expr(sf.node) if not sf.axioms_only else None
-        if not sf.recursive and not sf.axioms_only:
+        if not sf.recursive and not sf.axioms_only and not getattr(sf, "opaque", False):
             v = fv.eval(body, Ctx(env, ctx.heap, spec=True, fuel=ctx.fuel))
             rt = parse_type(sf.ret)
             if not (isinstance(rt, tuple) and rt[0] == "list"):
@@ -958,6 +976,8 @@ class World:
             fv.call_function(init, [obj] + args, kwargs, e)
             return obj
         if ci.is_dataclass or any(self.prog.classes.get(b) and self.prog.classes[b].is_dataclass for b in self.prog.mro(cname)):
+            if self.prog.find_method(cname, "__post_init__") is not None:
+                raise VCError(f"dataclass {cname} defines __post_init__: its generated constructor is outside the subset")
             fields = self.prog.dataclass_fields(cname)
             names = [f[0] for f in fields]
             vals = {}
@@ -1075,9 +1095,19 @@ class World:
                     raise VCError(f"{key}: missing argument {n} at {fv.where(e)}")
                 bound[n] = fv.eval(ast.parse(repr(d), mode="eval").body, Ctx({}, ctx.heap, spec=True))
         for n in list(bound):
+            if bound[n].kind() == "module":
+                # a library object named by its dotted path (pathspec.patterns.GitWildMatchPattern): its name as a string
+                bound[n] = mk_str(bound[n].t)
             if n in c.types and bound[n].kind() not in ("tuple", "starred"):
                 bound[n] = fv.coerce(bound[n], parse_type(c.types[n]), e, spec=ctx.spec)
         sctx = Ctx(bound, ctx.heap, spec=True, fuel=ctx.fuel)
+        if str(c.types.get("return", "")).startswith("iter:"):
+            # a lazy iterator (os.walk): nothing happens at the call; each loop iteration asks `ext:<name>.next`
+            if ctx.spec:
+                raise VCError(f"{key} (an iterator) used in a spec")
+            for i, clause in enumerate(c.requires_clauses()):
+                fv.oblige(fv.eval_spec_bool(clause, sctx), "pre", f"{key}.{i}", fv.where(e))
+            return V(("extiter", c.types["return"][5:]), dict(bound))
         if c.returns is not None and (ctx.spec or not c.modifies):
             if not ctx.spec:
                 for i, clause in enumerate(c.requires_clauses()):
@@ -1135,11 +1165,66 @@ class World:
             fv.soft_mode = False
         return res
 
+    def ext_next(self, it, k, node, fv):
+        """one step of an external iterator: fresh values (fresh lists) constrained by the `next` contract; the
+        iterator's own arguments and the step number `_k` are visible to that contract"""
+        key = f"ext:{it.ty[1]}.next"
+        c = self.contracts.get(key)
+        if c is None:
+            raise VCError(f"no contract {key}")
+        self.note_callee(fv.label, key)
+        bound = dict(it.t)
+        bound["_k"] = mk_int(k)
+        vals = []
+        for item in c.types["_yields"]:
+            name, ty = item.split(":", 1)
+            pty = parse_type(ty)
+            if isinstance(pty, tuple) and pty[0] == "list":
+                n = z3.Int(f"y_{name}_len!{next(fv.ctr)}")
+                fv.assume(n >= 0)
+                fv.mark_nonneg(n)
+                arr = z3.Const(f"y_{name}_arr!{next(fv.ctr)}", z3.ArraySort(IntS, E.sort_of(pty[1])))
+                v = fv.new_list(pty[1], n, arr, "y_" + name)
+            else:
+                v = fv.fresh(pty, "y_" + name)
+            bound[name] = v
+            vals.append(v)
+        post = Ctx(bound, fv.heap, spec=True)
+        fv.soft_mode = True
+        try:
+            for label, clause in c.ensures_clauses(caller=True):
+                fv.assume(fv.eval_spec_bool(clause, post))
+        finally:
+            fv.soft_mode = False
+        return V("tuple", vals) if len(vals) > 1 else vals[0]
+
     def module_call(self, name, e, ctx, fv):
         key = "ext:" + name
         if name.startswith("logger.") or name.startswith("logging."):
             self.dropped.add("logging call")
             return NONE
+        if name == "copy.copy" and len(e.args) == 1:
+            v = fv.eval(e.args[0], ctx)
+            if v.kind() in ("list", "listval"):
+                # shallow copy of a list: a new list object with the same items
+                n, arr, ety = fv.as_listval(v, ctx)
+                return fv.new_list(ety, n, arr, "listcopy")
+            if v.kind() == "ref" and v.ty[1] in self.prog.classes:
+                # shallow copy of an object: a new object of the same class whose fields hold the SAME values
+                # (nested objects and lists are shared with the original)
+                cname = v.ty[1]
+                r = fv.alloc(cname.lower() + "_copy", cname)
+                obj = mk_ref(r, cname, exact=True)
+                fv.assume(typeof(r) == typeof(v.t))
+                for (fkey, fty) in self.all_fields_of(cname):
+                    attr = fkey.split(".", 1)[1] if "." in fkey else fkey
+                    arr = fv.heap.get(fkey, sort_of(fty))
+                    fv.reveal(fkey, sort_of(fty), r, fv.sel(arr, v.t, fkey))
+                    if isinstance(fty, tuple) and fty[0] == "opt":
+                        arr2 = fv.heap.get(fkey + "?", BoolS)
+                        fv.reveal(fkey + "?", BoolS, r, fv.sel(arr2, v.t, fkey + "?"))
+                return obj
+            raise VCError(f"copy.copy of {v.ty} not supported at {fv.where(e)}")
         if key not in self.contracts:
             raise VCError(f"no contract for external {name} at {fv.where(e)}")
         args, kwargs = self.eval_args(e, ctx, fv)
@@ -1273,7 +1358,11 @@ class World:
             fv.assume(z3.And(k >= 0, k < n, z3.Select(a1, k) == x.t,
                              z3.ForAll([j], z3.Implies(z3.And(j >= 0, j < k), z3.Select(a1, j) != x.t))))
             i = z3.Int("i!rm")
-            fv.set_list_arr(l, z3.Lambda([i], z3.If(i < k, z3.Select(a1, i), z3.Select(a1, i + 1))))
+            # a fresh array defined pointwise (as for insert: more robust for z3 than a lambda)
+            na = z3.Const(f"rm_arr!{next(fv.ctr)}", a1.sort())
+            fv.assume(z3.ForAll([i], z3.Select(na, i) == z3.If(i < k, z3.Select(a1, i), z3.Select(a1, i + 1)),
+                                patterns=[z3.Select(na, i)]))
+            fv.set_list_arr(l, na)
             fv.set_list_len(l, n - 1)
             fv.env["_rm_k"] = mk_int(k)
             return NONE
@@ -1451,15 +1540,66 @@ class World:
             else:
                 fv.pc.append(a)
         rng = z3.And(q >= lo, q < hi)
+        pats = []
+        for kw in e.keywords:
+            if kw.arg == "pattern":
+                # explicit trigger (a term over the bound variable): instantiation only where that term occurs -
+                # used to keep pairs of quantified facts from feeding each other new terms (matching loops)
+                pl = kw.value
+                penv = dict(env)
+                penv[pl.args.args[0].arg] = mk_int(q)
+                pv = fv.eval(pl.body, Ctx(penv, ctx.heap, spec=True, old=ctx.old, result=ctx.result, fuel=0,
+                                          entry=ctx.entry))
+                pats.append(pv.t)
         if universal:
+            if pats:
+                return mk_bool(z3.ForAll([q], z3.Implies(rng, body), patterns=pats))
             return mk_bool(z3.ForAll([q], z3.Implies(rng, body)))
         return mk_bool(z3.Exists([q], z3.And(rng, body)))
+
+    def bi_distinct_strs(self, e, ctx, fv):
+        """spec: the entries of a list of str are pairwise different (one quantifier over index pairs, with the two
+        reads as a multi-pattern)"""
+        v = fv.eval(e.args[0], ctx)
+        n, arr, ety = fv.as_listval(v, ctx)
+        if arr is None:
+            return mk_bool(True)
+        i = z3.Int(f"di!{next(fv.ctr)}")
+        j = z3.Int(f"dj!{next(fv.ctr)}")
+        if getattr(fv, "proving", False):
+            # as a goal: no two positions hold the same string
+            return mk_bool(z3.ForAll([i, j], z3.Implies(z3.And(i >= 0, i < j, j < n),
+                                                        z3.Select(arr, i) != z3.Select(arr, j))))
+        # as an assumption (use it positively only): an index function inverts the list - equivalent to pairwise
+        # difference, but instantiated once per read instead of once per pair of reads
+        didx = z3.Function("distinct_idx", arr.sort(), StrS, IntS)
+        return mk_bool(z3.ForAll([i], z3.Implies(z3.And(i >= 0, i < n), didx(arr, z3.Select(arr, i)) == i),
+                                 patterns=[z3.Select(arr, i)]))
 
     def bi_forall(self, e, ctx, fv):
         return self._quant(e, ctx, fv, True)
 
     def bi_exists(self, e, ctx, fv):
         return self._quant(e, ctx, fv, False)
+
+    def bi_hint(self, e, ctx, fv):
+        """spec: hint(expr) - true; evaluating expr makes the definitions of the (opaque / recursive) spec functions
+        it applies available for exactly these arguments"""
+        fv.eval(e.args[0], Ctx(ctx.env, ctx.heap, spec=True, old=ctx.old, result=ctx.result, fuel=max(ctx.fuel, 1),
+                               entry=ctx.entry))
+        return mk_bool(True)
+
+    def bi_forall_str(self, e, ctx, fv):
+        """forall_str(lambda p: P(p)) - over all strings (only in trusted contracts of library objects: an object
+        that behaves like a function of a string, e.g. a compiled PathSpec)"""
+        lam = e.args[0]
+        name = lam.args.args[0].arg
+        q = z3.Const(f"{name}!q{next(fv.ctr)}", StrS)
+        env = dict(ctx.env)
+        env[name] = mk_str(q)
+        sub = Ctx(env, ctx.heap, spec=True, old=ctx.old, result=ctx.result, fuel=0, entry=ctx.entry)
+        body = fv.eval_spec_bool(lam.body, sub)
+        return mk_bool(z3.ForAll([q], body))
 
     def bi_forall_ref(self, e, ctx, fv):
         """forall_ref(lambda r: P(r)) - over all allocated objects (used for global frame statements)"""
@@ -1491,6 +1631,23 @@ class World:
         sarr = E.sorted_arr(arr, n)
         if ctx.spec:
             return V(("listval", "str"), (n, sarr))
+        # sorted(): ordered (str_le, the uninterpreted order of contracts/specs.py) and a permutation of the argument,
+        # the permutation being given by two skolem functions that are inverse to each other
+        le = lambda a, b: self.apply_spec("str_le", [mk_str(a), mk_str(b)], ctx, fv).t
+        i = z3.Int("i!so")
+        sp = z3.Function("sorted_src", arr.sort(), IntS, IntS, IntS)
+        spi = z3.Function("sorted_pos", arr.sort(), IntS, IntS, IntS)
+        rng = z3.And(i >= 0, i < n)
+        fv.assume(z3.ForAll([i], z3.Implies(z3.And(i >= 0, i < n - 1), le(z3.Select(sarr, i), z3.Select(sarr, i + 1))),
+                            patterns=[z3.Select(sarr, i)]))
+        fv.assume(z3.ForAll([i], z3.Implies(rng, z3.And(sp(arr, n, i) >= 0, sp(arr, n, i) < n,
+                                                        z3.Select(sarr, i) == z3.Select(arr, sp(arr, n, i)),
+                                                        spi(arr, n, sp(arr, n, i)) == i)),
+                            patterns=[z3.Select(sarr, i)]))
+        fv.assume(z3.ForAll([i], z3.Implies(rng, z3.And(spi(arr, n, i) >= 0, spi(arr, n, i) < n,
+                                                        z3.Select(arr, i) == z3.Select(sarr, spi(arr, n, i)),
+                                                        sp(arr, n, spi(arr, n, i)) == i)),
+                            patterns=[z3.Select(arr, i)]))
         return fv.new_list("str", n, sarr, "sorted")
 
     def bi_map(self, e, ctx, fv):
